@@ -124,13 +124,31 @@ func c01Case(ctx *core.Ctx, e *gen.Entry, rows reflect.Value, cfg *gen.WriterCfg
 			err := e.WriteReflect(&buf, rows.Interface(), cfg.Opts...)
 			return buf.Bytes(), err
 		}},
+		// the caller refills ONE set of scratch rows before every Write call and wipes it before
+		// Close: a writer must not keep references into caller memory after Write returned
+		{"generic-writer caller-reuses-memory", func() ([]byte, error) {
+			var buf bytes.Buffer
+			err := e.WriteGenericReuse(&buf, rows, batches, cfg.Opts...)
+			return buf.Bytes(), err
+		}},
+		{"writer-write-any caller-reuses-memory", func() ([]byte, error) {
+			var buf bytes.Buffer
+			err := e.WriteReflectReuse(&buf, rows, cfg.Opts...)
+			return buf.Bytes(), err
+		}},
 	}
 	w := writers[r.Intn(2)]
 	if r.Intn(4) == 0 {
 		w = writers[0]
 	}
+	if r.Intn(3) == 0 {
+		w = writers[2+r.Intn(2)]
+	}
 	file, err := w.f()
 	sig := fmt.Sprintf("codec=%s v%d", cfg.Codec, cfg.PageVersion)
+	if strings.HasSuffix(w.name, "caller-reuses-memory") {
+		sig += " caller-reuses-memory"
+	}
 	if err != nil {
 		ctx.Fail("L1", "write-error writer="+w.name+" "+errClass(err), "writing valid rows failed: "+err.Error(), detail(map[string]any{"writer": w.name}))
 		return
@@ -151,12 +169,23 @@ func c01Case(ctx *core.Ctx, e *gen.Entry, rows reflect.Value, cfg *gen.WriterCfg
 	} else if ok, diff := gen.CanonEqual(rows, reflect.ValueOf(back2), e.Name); !ok {
 		ctx.Fail("L1", "rows-differ reader=GenericReader "+sig+" "+diffClass(diff), "rows read back differ from rows written: "+diff, detail(map[string]any{"writer": w.name, "read_batch": batch, "diff": diff}))
 	}
-	// 3. stored streams (pages) and row reader vs the reference shredder
-	got, err := gen.ReadColumns(file)
+	// 3. stored streams (pages) and row reader vs the reference shredder; the page-level API is
+	// driven through one of its read histories: chunk by chunk or through the whole-column
+	// reader, with or without loading the dictionary first, with value buffers of any capacity
+	mode := gen.PageReadMode{DictFirst: r.Intn(3) == 0, WholeColumn: r.Intn(4) == 0, ValueBuf: []int{0, 0, 1, 2, 3, 7, 1000}[r.Intn(7)]}
+	ctx.Hist("pagemode", fmt.Sprintf("dictfirst=%v wholecolumn=%v", mode.DictFirst && !mode.WholeColumn, mode.WholeColumn))
+	msig := ""
+	if mode.DictFirst && !mode.WholeColumn {
+		msig += " dict-first"
+	}
+	if mode.WholeColumn {
+		msig += " whole-column"
+	}
+	got, err := gen.ReadColumnsMode(file, mode)
 	if err != nil {
-		ctx.Fail("L1", "read-error reader=pages "+sig+" "+errClass(err), "reading pages failed: "+err.Error(), detail(map[string]any{"writer": w.name}))
+		ctx.Fail("L1", "read-error reader=pages"+msig+" "+sig+" "+c01ErrKind(err), "reading pages failed: "+err.Error(), detail(map[string]any{"writer": w.name, "page_read_mode": mode.String()}))
 	} else if c, i, desc := firstDiff(expected, got); c != -2 {
-		ctx.Fail("L1", "stream-differs reader=pages "+sig, fmt.Sprintf("stored column stream differs: column %d entry %d: %s", c, i, desc), detail(map[string]any{"writer": w.name}))
+		ctx.Fail("L1", "stream-differs reader=pages"+msig+" "+sig, fmt.Sprintf("stored column stream differs: column %d entry %d: %s", c, i, desc), detail(map[string]any{"writer": w.name, "page_read_mode": mode.String()}))
 	}
 	got2, nrows, err := gen.ReadRowsColumns(file, batch)
 	if err != nil {
@@ -168,6 +197,25 @@ func c01Case(ctx *core.Ctx, e *gen.Entry, rows reflect.Value, cfg *gen.WriterCfg
 			ctx.Fail("L1", "stream-differs reader=rows "+sig, fmt.Sprintf("rows differ: column %d entry %d: %s", c, i, desc), detail(map[string]any{"writer": w.name, "read_batch": batch}))
 		}
 	}
+}
+
+// c01ErrKind maps an error of the page-level readers to a small enum (a misaligned page stream
+// produces a different thrift message on every input).
+func c01ErrKind(err error) string {
+	s := err.Error()
+	switch {
+	case strings.Contains(s, "PANIC"):
+		return errClass(err)
+	case strings.Contains(s, "thrift") || strings.Contains(s, "missing required field"):
+		return "err:page-header-decode"
+	case strings.Contains(s, "EOF"):
+		return "err:eof"
+	case strings.Contains(s, "orrupt") || strings.Contains(s, "checksum"):
+		return "err:corrupted"
+	case strings.Contains(s, "returned 0 values"):
+		return "err:no-progress"
+	}
+	return "err:other"
 }
 
 // diffClass keeps the kind of difference (not the position) for failure keys.
